@@ -248,7 +248,7 @@ namespace
       int nops = 1 + int(sim::cfg_weighted("fault_ops", {5, 2, 1}));
       for(int k = 0; k < nops; ++k)
       {
-        int kind = int(sim::cfg_weighted(("fault_kind" + std::to_string(k)).c_str(), {4, 2, 1, 1, 3, 3, 3, 2, 2, 2, 2}));
+        int kind = int(sim::cfg_weighted(("fault_kind" + std::to_string(k)).c_str(), {4, 2, 1, 1, 3, 3, 3, 2, 2, 2, 2, 3}));
         int bias = int(sim::cfg_int(("fault_bias" + std::to_string(k)).c_str(), 0, 1));
         switch(kind)
         {
@@ -263,6 +263,7 @@ namespace
         case 8: index_out_of_range(bf, log); break;
         case 9: mapping_out_of_range(bf, log); break;
         case 10: dim_change(bf, log); break;
+        case 11: drop_element(bf, log); break;
         }
       }
       size_t eof_limit = size_t(-1);
@@ -385,6 +386,52 @@ namespace
       log.ops += std::string(dup ? "DUP_LINE(" : "DROP_LINE(") + std::to_string(li) + ") ";
       log.must_reject = true; log.why += "record count of a counted block no longer matches its declared size; ";
       sim::count_fault(dup ? "DUP_LINE" : "DROP_LINE");
+    }
+
+    // remove one whole child element (opening line .. closing line) - a lost extent of the file that happens to align
+    // with an element. Mandatory blocks: <Vertices> and every <Topology> of the root mesh, every <Mapping> of a mesh part
+    // with entities of that dimension, every <Topology> of a topology="full" mesh part with entities of that dimension.
+    static void drop_element(Bytes& b, simfs::FaultLog& log)
+    {
+      auto ls = lines_of(b);
+      struct El { size_t open, close; std::string name; bool mandatory; };
+      std::vector<El> els;
+      bool in_chart = false;
+      for(size_t i = 0; i < ls.size(); ++i)
+      {
+        std::string t = trimmed(b, ls[i]);
+        if(t.size() < 3 || t[0] != '<') continue;
+        if(t.compare(0, 8, "</Chart>") == 0) { in_chart = false; continue; }
+        if(t[1] == '/' || t[1] == '!' || t[1] == '?') continue;
+        size_t ne = 1; while(ne < t.size() && (isalnum((unsigned char)t[ne]) || t[ne] == '_')) ++ne;
+        std::string name = t.substr(1, ne - 1);
+        if(name == "FeatMeshFile" || name == "Mesh" || name == "Info") continue;
+        const bool chart_child = in_chart;
+        if(name == "Chart") in_chart = true;
+        if(t.size() >= 2 && t[t.size() - 2] == '/') continue;     // <x/>: nothing inside
+        // closing line of this element: same name, properly nested for the writer's one-tag-per-line layout
+        size_t depth = 0, close = size_t(-1);
+        bool data = false;
+        for(size_t j = i + 1; j < ls.size(); ++j)
+        {
+          std::string u = trimmed(b, ls[j]);
+          if(u.empty()) continue;
+          if(u.compare(0, name.size() + 2, "</" + name) == 0) { if(depth == 0) { close = j; break; } --depth; continue; }
+          if(u.compare(0, name.size() + 1, "<" + name) == 0 && u.size() > name.size() + 1 && !isalnum((unsigned char)u[name.size() + 1])) ++depth;
+          if(u[0] != '<') data = true;
+        }
+        if(close == size_t(-1)) continue;
+        const bool mand = !chart_child && data && (name == "Vertices" || name == "Topology" || name == "Mapping");
+        els.push_back({i, close, name, mand});
+      }
+      if(els.empty()) return;
+      const El& e = els[simfs::pick(els.size(), "drop_element")];
+      const size_t beg = ls[e.open].beg;
+      const size_t end = ls[e.close].end < b.size() ? ls[e.close].end + 1 : ls[e.close].end;
+      b.erase(b.begin() + long(beg), b.begin() + long(end));
+      log.ops += "DROP_ELEMENT(" + e.name + "@line" + std::to_string(e.open) + ") ";
+      if(e.mandatory) { log.must_reject = true; log.why += "a mandatory <" + e.name + "> block with records is missing; "; }
+      sim::count_fault("DROP_ELEMENT");
     }
 
     // change the first number of a size="..." attribute of <Mesh>/<MeshPart> by +1..+3
